@@ -337,8 +337,12 @@ func c08Result(o *run.Outcome) string {
 
 func (c08) RunCase(c *core.Ctx) {
 	// i18n is installed for the whole round (before the solo results are computed): every call names, or does not name, its language
+	// (every second round; the other rounds run with the shipped formatter, one instance shared by all goroutines)
 	savedFmt := conf.IssueFormatter
-	i18n.SetLanguagesErrsMap(map[string]zconst.LangMap{"en": en.Map, "es": es.Map}, "en")
+	i18nOn := c.Case%2 == 0
+	if i18nOn {
+		i18n.SetLanguagesErrsMap(map[string]zconst.LangMap{"en": en.Map, "es": es.Map}, "en")
+	}
 	defer func() { conf.IssueFormatter = savedFmt }()
 	r := c.R
 	G := tierN(c.Tier, 16, 48)
@@ -630,7 +634,7 @@ func (c08) RunCase(c *core.Ctx) {
 					}
 					l := z.String().Min(5).Parse("ab", &s, o...)
 					want := en.Map[zconst.TypeString][zconst.IssueCodeMin]
-					if lang == "es" {
+					if lang == "es" && i18nOn {
 						want = es.Map[zconst.TypeString][zconst.IssueCodeMin]
 					}
 					want = strings.ReplaceAll(want, "{{min}}", "5")
